@@ -31,13 +31,13 @@ tvars == <<vars, l, hid, used, bad, evict>>
 ModeOf(m) == IF m \in {"p0", "pi"} THEN "p0" ELSE IF m \in {"pw", "pj"} THEN "pw" ELSE "mem"
 
 Blank(m) ==
-  /\ store' = NoMap /\ pend' = NoMap /\ open' = FALSE /\ disk' = NoMap /\ wq' = {}
+  /\ store' = NoMap /\ pend' = NoMap /\ open' = FALSE /\ disk' = NoMap /\ wq' = {} /\ dq' = {} /\ filed' = {} /\ xb' = FALSE /\ xk' = NoMap
   /\ mode' = m
   /\ last' = [q |-> [op |-> "Init"], r |-> [err |-> ""], ret |-> TRUE, dv |-> {}, before |-> NoMap]
   /\ ops' = 0
 
 TraceInit ==
-  /\ store = NoMap /\ pend = NoMap /\ open = FALSE /\ disk = NoMap /\ wq = {} /\ mode = "mem"
+  /\ store = NoMap /\ pend = NoMap /\ open = FALSE /\ disk = NoMap /\ wq = {} /\ dq = {} /\ filed = {} /\ xb = FALSE /\ xk = NoMap /\ mode = "mem"
   /\ last = [q |-> [op |-> "Init"], r |-> [err |-> ""], ret |-> TRUE, dv |-> {}, before |-> NoMap]
   /\ ops = 0
   /\ l = 1 /\ hid = 0 /\ used = {} /\ bad = FALSE /\ evict = FALSE
@@ -79,15 +79,15 @@ TrCall ==
   /\ IsEvent("call")
   /\ UNCHANGED <<hid, mode, evict>>
   /\ IF bad \/ ~last.ret
-       THEN UNCHANGED <<store, pend, open, disk, wq, last, ops, used, bad>>
+       THEN UNCHANGED <<store, pend, open, disk, wq, dq, filed, xb, xk, last, ops, used, bad>>
        ELSE LET cands == IF evict THEN Direct \cup AfterEviction ELSE Direct
             IN IF cands = {}
                  THEN /\ PrintT(ToJson([h |-> hid, line |-> l, i |-> Line.i, op |-> Line.op,
                                         expected |-> {[r |-> o.r, ret |-> o.ret] : o \in Outs(Line, State)}]))
                       /\ bad' = TRUE
-                      /\ UNCHANGED <<store, pend, open, disk, wq, last, ops, used>>
+                      /\ UNCHANGED <<store, pend, open, disk, wq, dq, filed, xb, xk, last, ops, used>>
                  ELSE \E c \in cands :
-                      /\ store' = c.o.S.store /\ pend' = c.o.S.pend /\ open' = c.o.S.open /\ disk' = c.o.S.disk /\ wq' = c.o.S.wq
+                      /\ store' = c.o.S.store /\ pend' = c.o.S.pend /\ open' = c.o.S.open /\ disk' = c.o.S.disk /\ wq' = c.o.S.wq /\ dq' = c.o.S.dq /\ filed' = c.o.S.filed /\ xb' = c.o.S.xb /\ xk' = c.o.S.xk
                       /\ last' = [q |-> Line, r |-> c.o.r, ret |-> c.o.ret, dv |-> c.o.dv, before |-> store]
                       /\ ops' = ops + 1
                       /\ used' = used \cup c.u
